@@ -61,5 +61,14 @@ C13-3 C13 --only rangeValCopy
 C14-3 C14 --only AnalyzerParam
 C16-3 C16
 C20-3 C20 --only C20ExitAfterDefer
+C04-3 C05 --only typeUnparen
+C04-3 C04
+C06-3 C06
+C08-3 C08
+C11-3 C11
+C15-3 C15
+C17-3 C17 --only Groups
+C18-3 C18
+C19-3 C19
 L
 cat $OUT/*.txt
